@@ -700,12 +700,20 @@ def evaluate__idiv_operator(self: XPathToken, context: ta.ContextType = None) ->
         if isinstance(context, XPathSchemaContext):
             return 1
         raise self.error('FOAR0001') from None
-    else:
+    except TypeError as err:
+        raise self.error('XPTY0004', err) from None
+
+    try:
         if result >= 0 or isinstance(op1, Decimal) or \
                 isinstance(op2, Decimal) or op1 % op2 == 0:
             return int(result)
         else:
             return int(result) + 1
+    except TypeError as err:
+        raise self.error('XPTY0004', err) from None
+    except OverflowError as err:
+        # the quotient of two doubles is beyond the double range
+        raise self.error('FOAR0002', err) from None
 
 
 # Resolve the intrinsic ambiguity of some infix operators
